@@ -168,6 +168,9 @@ class MessageSigner(object):
         if not pairs:
             # no curve point has this x coordinate
             raise EncodingError("no public key can be recovered from this signature")
+        if pairs[0] == self._generator.infinity():
+            # s*R = msg_hash*G: the "key" is the point at infinity, which has no sec encoding
+            raise EncodingError("no public key can be recovered from this signature")
         return pairs[0], is_compressed
 
     def pair_matches_key(self, pair: Any, key: Any, is_compressed: bool) -> bool:
